@@ -317,6 +317,13 @@ func c08BulkGenesis(e *domEnv) func(gs map[string]json.RawMessage, cdc codec.Cod
 			pg.Denoms = append(pg.Denoms, &pnfttypes.Denom{Id: dn, Name: "n", Symbol: "S", Owner: owner.Bech})
 			pg.Pnfts = append(pg.Pnfts, &pnfttypes.Pnft{DenomId: dn, Id: "t", Name: "tok", Creator: owner.Bech, Owner: e.W.Bech, CreatedAt: world.BaseTime})
 		}
+		// one topic with a two-digit number of records (offsets 0..11 in the string keys of the exported genesis)
+		ag.Owners[e.A.Bech].TotalTopics++
+		ag.Topics[e.A.Bech+"/many"] = &aoltypes.Topic{Description: "twelve records", TotalWriters: 1, TotalRecords: 12}
+		ag.Writers[e.A.Bech+"/many/"+e.W.Bech] = &aoltypes.Writer{Moniker: "w", NanoTimestamp: 11}
+		for i := 0; i < 12; i++ {
+			ag.Records[fmt.Sprintf("%s/many/%d", e.A.Bech, i)] = &aoltypes.Record{Key: []byte(fmt.Sprintf("k%d", i)), Value: []byte("v"), NanoTimestamp: int64(20 + i), WriterAddress: e.W.Bech}
+		}
 		gs["aol"] = cdc.MustMarshalJSON(&ag)
 		gs["pnft"] = cdc.MustMarshalJSON(&pg)
 	}
